@@ -22,12 +22,10 @@ CLAIMED.update({
         note='Trusted: Coq kernel, T1/T2 translators, bs4view/irdump, extraction, reference semantics (selspec.py). The Spec-equivalence '
              'theorem for the whole grammar is not proved yet: exactness is decided per case by model+oracle agreement (partial).',
         technique='Coq matcher model + translation validation of attribute templates + extracted-model/implementation/reference differential'),
-    'C02': dict(cat='proof', design='DESIGN.md §7 C02',
-        text='match_nth\'s bound-adjustment and walk loops are modelled faithfully (Match.nth_core); theorem: closed form of An+B; the loops '
-             'equal the closed form for all |A|,|B| <= 12 and every counted/uncounted sibling pattern of up to 8 preceding nodes (decided '
-             'inside the kernel); beyond the bound: extracted model vs implementation vs closed form on generated sibling lists.',
-        note='The unbounded statement is not proved (partial): bounded kernel computation + correspondence.',
-        technique='Coq model of the loop + bounded-exhaustive kernel proof + differential run'),
+    'C02': dict(cat='proof', design='DESIGN.md §0, §7 C02',
+        text="Theorems, for ALL integers A, B and ALL sibling walks (no bound): match_nth's bound-adjustment loop, lowest-count loop and sibling walk (Match.nth_core, a faithful model incl. fuel) terminate within their fuel and answer exactly 'pos = A*n+B for some n >= 0' (resp. pos = A), where pos is the element's position among the counted siblings (NthProof.nth_core_exact); lifted to match_nth on an element with any `of S` list, forward/-last-, child/-of-type, from any consistent memo (NthElem.match_nth_one). Extracted model vs implementation vs closed form on generated sibling lists (every spelling, plain indices, `of S`).",
+        note='The theorems are about the model; the tie to css_match.match_nth is the correspondence run. The An+B micro-syntax -> integers step is executed (parser model), not proved.',
+        technique='Coq proof by induction (loop invariants, lia/nia) on the model of the loop + differential run'),
     'C13': dict(cat='proof', design='DESIGN.md §7 C13',
         text='Theorem: the language-range decision on subtag lists is exactly RFC 4647 3.3.2 (inductive relation), for all lists; the string '
              'level (split, lower, RE_WILD_STRIP from the regenerated regex) and the language-determination walk are executed by the '
@@ -63,16 +61,12 @@ CLAIMED.update({
              'method (a finite statement about the wrapper bodies regenerated from soupsieve/__init__.py by T3); select() yields a '
              'sub-sequence of the descendant walk, at most k items under limit k; the document object and non-elements never match. '
              '~25 relational facts between all entry points checked on the implementation, every entry point through the extracted model.',
-        note='select = filter-by-match pointwise needs memo transparency (C04, partial); it is checked per case.',
+        note='select = filter-by-match pointwise is the C04 theorem (HistFacts); the relational facts are checked per case on the implementation.',
         technique='Coq proof over source-translated API table + matcher-model lemmas + relational differential'),
-    'C04': dict(cat='proof', design='DESIGN.md §7 C04',
-        text='Theorem: the :default memo table is transparent (any consistent memo gives the answer and exception of the empty memo and '
-             'stays consistent). History runs: every answer of a shared matcher is compared with one fresh matcher per element, with the '
-             'module-level function, and with a pristine structural copy asked in reverse order; the tree is compared before/after '
-             '(serialisation, node identities, attributes, parent links). The model uses a fresh memo per call and restores the '
-             'namespace/iframe swap by construction.',
-        note='history-freedom of the whole matcher (lang and indeterminate tables, lifting through match_selectors) is not proved yet (partial); non-mutation is monitored, not proved.',
-        technique='Coq proof of memo transparency (partial) + history differential + run-time mutation monitor'),
+    'C04': dict(cat='proof', design='DESIGN.md §0, §7 C04',
+        text="Theorem (HistFacts.det_matcher): from ANY consistent memo - whatever earlier questions put into the three tables - every function of the matcher's mutual recursion returns the value, or raises the exception, it returns from the empty memo, and leaves a consistent memo; hence select / filter / closest equal the per-element fresh answers in document order up to the limit (api_select_history_free ...), and match is the fresh answer. History runs on the implementation: shared matcher vs one matcher per element vs module-level function vs a pristine structural copy asked in reverse order; tree compared before/after (serialisation, identities, attributes, parent links).",
+        note="non-mutation of the bs4 tree is monitored at run time, not proved (the model's trees are immutable values); the theorem is about the model, tied by the history runs.",
+        technique='Coq proof of history-freedom of the whole matcher model (logical relation over the memo monad) + history differential + mutation monitor'),
     'C05': dict(cat='proof', design='DESIGN.md §7 C05',
         text='Theorems for ARBITRARY structures A, B (any flags, any nested content), as equalities of the whole monadic computation: '
              'list A++B = A or-else B; a non-empty negated list = negation of the positive list; adding an alternative is monotone; '
@@ -87,13 +81,10 @@ CLAIMED.update({
              'implementation must not raise and must agree with the model.',
         note='the full totality theorem is false of the faithful model because of the recorded finding C18-week-year-range; partial.',
         technique='Coq model with explicit exceptions + differential on exception class'),
-    'C17': dict(cat='proof', design='DESIGN.md §7 C17',
-        text='Partition laws are instances of the proved complement law (C05) and of the single range decision; HTML-only lists are '
-             'evaluated in a fixed environment (own document, html namespace) - proved. Ten laws and the definitions of :default, '
-             ':indeterminate, :placeholder-shown are evaluated on the implementation for every element of generated form documents; '
-             'all state pseudo-classes run through the extracted model.',
-        note='definitional theorems (default/indeterminate/dir) are not proved; decided per case (partial).',
-        technique='Coq corollaries of the Boolean laws + definitional oracle + differential'),
+    'C17': dict(cat='proof', design='DESIGN.md §0, §7 C17',
+        text='Theorems: partition laws as instances of the proved complement law (C05) and of the single range decision; HTML-only lists evaluated in a fixed environment (own document, html namespace); every HTML element of a rooted document is exactly one of :dir(ltr) / :dir(rtl) (DirFacts.dir_partition, any fuel / tree / bidi classifier); :default and :indeterminate are functions of (form) resp. (form, group name) only (HistFacts). Ten laws and the definitions of :default, :indeterminate, :placeholder-shown evaluated on the implementation for every element of generated form documents; all state pseudo-classes through the extracted model.',
+        note='the definitional readings of :default / :indeterminate / :placeholder-shown are decided per case by the oracle (partial); nested forms are not judged.',
+        technique='Coq theorems on the matcher model + definitional oracle + differential'),
 })
 CLAIMED.update({
     'C14': dict(cat='proof', design='DESIGN.md §7 C14',
@@ -117,7 +108,7 @@ CLAIMED.update({
              'completion on an abstract import machine (partial modules, from-import fallback, try/except ImportError) fed with the '
              'import-time action lists regenerated by T5 from soupsieve/*.py and the installed bs4, with no swallowed ImportError and '
              'no dynamic attribute access on a partially initialised module. 47 (thorough: 200) programs are run in fresh interpreters: '
-             'silent import, bs4.css.soupsieve is the real module, a battery of 36 selections identical across orders and between '
+             'silent import, bs4.css.soupsieve is the real module, a battery of 52 selections (incl. default / empty / absent namespace maps) identical across orders and between '
              'BeautifulSoup.select and soupsieve.select.',
         note='the machine abstracts the import protocol; the behavioural half (equal results, no output) is observed, not proved.',
         technique='Coq finite proof over source-derived import actions + fresh-interpreter enumeration'),
